@@ -203,6 +203,10 @@ fn step(s: &dyn ShapeDyn, d: &Desc, img: &[u8], pop: &PathOp) -> StepResult {
                 }
                 // C05 on every reachable state
                 if obs.size != pt.extent {
+                    if own == "C11" {
+                        // size() is part of the observable state C11 compares with the Vec/String model
+                        res.viol.push(("C11", format!("size/{}", name), format!("size() {} but a vector/string with this content occupies {} bytes", obs.size, pt.extent)));
+                    }
                     res.viol.push(("C05", format!("size_vs_extent/{}", name), format!("size() {} != reference extent {} after {}", obs.size, pt.extent, name)));
                 } else if obs.size <= n {
                     match catch(|| s.from_bytes(&after[..obs.size])) {
